@@ -15,16 +15,16 @@ type profile struct {
 	Name string
 	// per-tick probabilities (out of 1000) of each fault/admin action during chaos
 	Partition, Heal, Crash, Restart, Stall, ConnReset, ConnStall int
-	Transfer, Member, Snapshot, WipeNonvoter              int
-	DiskErr                                                   int
-	MinVoters, MaxVoters, MaxNonvoters                        int
-	Clients                                                   int // max clients
-	TwoClusters                                               bool
-	Misroute                                                  int // per-mille of dials that end up at another node's listener
-	Intruder                                                  int // tick weight: a second instance tries to use a served directory
-	TinySegments                                              bool
-	C06Every                                                  int // evaluate the durability oracle at one in so many commit advances (0: never)
-	Templates                                                 []string
+	Transfer, Member, Snapshot, WipeNonvoter                     int
+	DiskErr                                                      int
+	MinVoters, MaxVoters, MaxNonvoters                           int
+	Clients                                                      int // max clients
+	TwoClusters                                                  bool
+	Misroute                                                     int // per-mille of dials that end up at another node's listener
+	Intruder                                                     int // tick weight: a second instance tries to use a served directory
+	TinySegments                                                 bool
+	C06Every                                                     int // evaluate the durability oracle at one in so many commit advances (0: never)
+	Templates                                                    []string
 }
 
 var profiles = map[string]profile{
@@ -57,7 +57,7 @@ type runConfig struct {
 	Profile      string
 	Voters       int
 	Nonvoters    int
-	Spares       int // nodes that run but are not in the bootstrap configuration
+	Spares       int  // nodes that run but are not in the bootstrap configuration
 	Preseed      bool // bootstrap by pre-seeded storage instead of a ChangeConfig on one node
 	HB           time.Duration
 	PromoteThr   time.Duration
@@ -78,6 +78,7 @@ type runConfig struct {
 	SlowFSM      int // per-mille chance that an FSM call takes simulated time
 	NotifyCrash  bool
 	MaxBuf       int
+	LagEvery     int           // one goroutine in so many is a laggard for the scheduler (0: none)
 	SlowIO       int           // per-mille chance that a file-system or mmap call takes simulated time
 	SlowIOMax    time.Duration // at most this long
 }
@@ -129,6 +130,7 @@ func drawConfig(t *rt.Tape, p profile) runConfig {
 	c.SlowFSM = pick(t, 0, 0, 50, 300)
 	c.NotifyCrash = t.Chance(rt.StConfig, 2, 3)
 	c.MaxBuf = pick(t, 256<<10, 4<<10, 64<<10)
+	c.LagEvery = pick(t, 0, 0, 6, 12, 25)
 	c.SlowIO = pick(t, 0, 0, 10, 50, 200)
 	c.SlowIOMax = pick(t, c.HB/40, c.HB/200, c.HB/10, c.HB/4)
 	return c
